@@ -1229,56 +1229,58 @@ search at once (a level closed and re-opened by `place_nodes` counts from the st
 With it: `close_frontier_node`'s `fill_before(…, True)` runs from the state after the real children, so the
 closed node's content is accepted (`fillBeforeTypes_exact`) — validity of closed nodes; and
 `content_match_at(child_count)` on the re-opened node of `place_nodes` is `run 0 (types kids)`, which
-succeeds exactly when the node is not a partial node (`Slice.noPartialNode`).  What is in place for the
-proof: `placeNodes_inStep` fixes the shape of `placed` after each phase of `place_nodes`
-(`closeMany_ok`, `openMany_ok`, `takeLoop_last`, `placeTaken_spine`); missing are the automaton-state
-bookkeeping of `takeLoop` (the state it returns is `run` over the types of what it added — `closeNodeStart`
-keeps the node's type), `closeNodeStart`'s own validity (fill prefix + children accepted; needs the
-request slice's `openValid`), and that mark filtering (`allowedMarks`) keeps mark sets canonical. -/
+succeeds exactly when the node is not a partial node (`Slice.noPartialNode`).  `coherentB` IS an
+invariant of the loop: `coherent_invariant` below (Proofs/FitCoherent.lean).  Still missing for the two
+statements: `closeNodeStart`'s own validity (fill prefix + children accepted; needs the request slice's
+`openValid`), that mark filtering (`allowedMarks`) keeps mark sets canonical, and the assembly of
+`openValid` for the emitted slice from `Coh` at the moment each node is closed. -/
 
-/-- **`coherent_invariant_partial`** — the key invariant `FitState.coherentB` (with the ghost level), as far
-    as it is proved (Proofs/FitCoherent.lean, `Coh` = the proposition behind the Boolean):
+/-- **`coherent_invariant`** — the key invariant `FitState.coherentB` (with the ghost level) is an invariant
+    of the loop of `fit` (Proofs/FitCoherent.lean, `Coh` = the proposition behind the Boolean):
     * **init**: the state `Fitter.__init__` builds is coherent (ghost level = `depth(from)`);
-    * **step**: an iteration of the loop keeps it — `find_fittable` / `place_nodes` with
+    * **step**: an iteration of the loop whose unplaced slice is well-formed and not of size 0 keeps it —
       `close_frontier_node` (the levels below stay as they are, fillers go *inside* the closed node),
       `open_frontier_node` for the wrappers (the parent's match advances by the wrapper type, the new level
       starts at state 0, the ghost level is cut down to the level the wrappers are opened at), the take
       loop (the match it returns is the state after the nodes it added, `takeLoop_run`; text nodes
       merged by `from_array` / `append` do not change the state when `textStableC` holds), the optional
-      `close_frontier_node` afterwards; `open_more` and `drop_node` leave `placed` and the frontier alone —
-      **provided `place_nodes` pushes no open end onto the frontier** in that iteration (stated on the
-      result: the new frontier is not deeper than the fittable's depth plus the wrappers).
-    MISSING for the full `coherent_invariant`: the iteration in which `open_end_count > 0`: the pushed
-    entries carry `content_match_at(child_count)` of the *slice's* nodes, while `placed` holds their
-    `close_node_start` images; coherence there needs that `close_node_start` put no fill in front of
-    the children of a node whose children match as they are (`fill_before` answers `[]` then:
-    `fillSearchO` tests `finished` first) and that it keeps types along the last-child chain
-    (`closeNodeStart_tyOf`, `closeNodeStart_rspine` are in place).  Not started: validity of the closed
-    nodes (`fit_emits_valid_payload`) and `fit_no_raise`, which build on the full invariant. -/
-theorem coherent_invariant_partial (S : Schema) (hdet : detB S = true) (hfill : S.fillersOKB = true)
+      `close_frontier_node` afterwards, and the open end `place_nodes` pushes (`pushOpenEnd_coh`: the
+      entries are read off the *slice's* nodes, `placed` holds their `close_node_start` images;
+      `content_match_at(child_count)` succeeding means `fill_before` put nothing in front, and types are
+      kept along the last-child chain); `open_more` and `drop_node` leave `placed` and the frontier alone;
+    * **loop**: with `unplacedWfRun`-style well-formedness over the run, the final state is in step and
+      coherent. -/
+theorem coherent_invariant (S : Schema) (hdet : detB S = true) (hfill : S.fillersOKB = true)
     (hwrap : S.wrapOKB = true) (hlab : S.labelsOKB = true) (hts : textStableC S = true) :
     (∀ (doc : Node) (f : Nat) (rf : RPos) (sl : Slice) (st0 : FitState), doc.resolve f = some rf →
       fitInit S rf sl = .ok st0 →
       Coh S rf.depth rf.depth st0.frontier 0 st0.frontier st0.placed ∧
       st0.coherentB S rf.depth st0.frontier = true) ∧
     (∀ (D g : Nat) (base : List FItem) (st st' : FitState), InStep st → g ≤ D →
-      Coh S D g base 0 st.frontier st.placed → fitStep S st = .ok st' →
-      (∀ f, findFittable S st = .ok (some f) →
-        st'.frontier.length ≤ f.frontierDepth + 1 + (f.wrap.getD []).length) →
-      ∃ g', g' ≤ g ∧ Coh S D g' base 0 st'.frontier st'.placed ∧ st'.coherentB S D base = true) := by
+      Coh S D g base 0 st.frontier st.placed → st.unplaced.wf = true → (st.unplaced.size == 0) = false →
+      fitStep S st = .ok st' →
+      ∃ g', g' ≤ g ∧ Coh S D g' base 0 st'.frontier st'.placed ∧ st'.coherentB S D base = true) ∧
+    (∀ (D g : Nat) (base : List FItem) (fuel : Nat) (st st' : FitState), InStep st → g ≤ D →
+      Coh S D g base 0 st.frontier st.placed → fitLoopAll S (fun s => s.unplaced.wf) fuel st = some true →
+      fitLoop S fuel st = .ok st' →
+      InStep st' ∧ ∃ g', g' ≤ g ∧ Coh S D g' base 0 st'.frontier st'.placed ∧ st'.coherentB S D base = true) := by
   have toB : ∀ (D g : Nat) (base : List FItem) (st : FitState), g ≤ D →
       Coh S D g base 0 st.frontier st.placed → st.coherentB S D base = true := by
     intro D g base st hg hc
     simp only [FitState.coherentB, List.any_eq_true, List.mem_range]
     exact ⟨g, by omega, Coh_toB S D g base _ 0 _ hc⟩
-  refine ⟨?_, ?_⟩
+  refine ⟨?_, ?_, ?_⟩
   · intro doc f rf sl st0 hf h0
     have hc := fitInit_coh S hf sl st0 h0
     exact ⟨hc, toB _ _ _ st0 (Nat.le_refl _) hc⟩
-  · intro D g base st st' inv hg hc h hnp
-    obtain ⟨g', hg', hc'⟩ := fitStep_coh_partial (textStableP_of_C S hts) (detS_of_detB S hdet)
-      (fillersOK_of_B S hfill) (wrapOK_of_B S hwrap) (labelsOK_of_B S hlab) D g base st inv hc st' h hnp
+  · intro D g base st st' inv hg hc hwf hsz h
+    obtain ⟨g', hg', hc'⟩ := fitStep_coh (textStableP_of_C S hts) (detS_of_detB S hdet)
+      (fillersOK_of_B S hfill) (wrapOK_of_B S hwrap) (labelsOK_of_B S hlab) D g base st inv hc hwf hsz st' h
     exact ⟨g', hg', hc', toB _ _ _ st' (by omega) hc'⟩
+  · intro D g base fuel st st' inv hg hc hall h
+    obtain ⟨i', g', hg', hc'⟩ := fitLoop_coh (textStableP_of_C S hts) (detS_of_detB S hdet)
+      (fillersOK_of_B S hfill) (wrapOK_of_B S hwrap) (labelsOK_of_B S hlab) D base fuel g st st' h inv hc hall
+    exact ⟨i', g', hg', hc', toB _ _ _ st' (by omega) hc'⟩
 
 /-- the in-step invariant itself: kept by every iteration whose unplaced slice is well-formed -/
 theorem inStep_invariant (S : Schema) (hdet : detB S = true) (hfill : S.fillersOKB = true) (hwrap : S.wrapOKB = true)
